@@ -471,4 +471,118 @@ theorem ifsSeparator_eq (env : Env) : ifsSeparator env = (sepChar env).map softC
   · rfl
   · cases v <;> rfl
 
+/-! ## Variable contexts and `Env.assign` -/
+
+theorem lookup_setVar (l : List (String × Var)) (n : String) (v : Var) :
+    (setVar l n v).lookup n = some v := by
+  induction l with
+  | nil => simp [setVar]
+  | cons p t ih =>
+    obtain ⟨m, w⟩ := p
+    by_cases h : m = n
+    · subst h; simp [setVar]
+    · have h' : (n == m) = false := by
+        simp only [beq_eq_false_iff_ne, ne_eq]; exact fun e => h e.symm
+      simp [setVar, h, List.lookup, h', ih]
+
+theorem lookupCtxs_none (cs : List (List (String × Var))) (n : String)
+    (h : ∀ c ∈ cs, c.lookup n = none) : lookupCtxs cs n = none := by
+  induction cs with
+  | nil => rfl
+  | cons c t ih =>
+    simp only [lookupCtxs, h c (by simp)]
+    exact ih (fun d hd => h d (by simp [hd]))
+
+theorem setInCtxs_none (cs : List (List (String × Var))) (n : String) (v : Var)
+    (h : ∀ c ∈ cs, c.lookup n = none) : setInCtxs cs n v = none := by
+  induction cs with
+  | nil => rfl
+  | cons c t ih =>
+    simp only [setInCtxs, h c (by simp)]
+    rw [ih (fun d hd => h d (by simp [hd]))]
+    rfl
+
+theorem lookupCtxs_setInCtxs (cs cs' : List (List (String × Var))) (n : String) (v : Var)
+    (h : setInCtxs cs n v = some cs') : lookupCtxs cs' n = some v := by
+  induction cs generalizing cs' with
+  | nil => simp [setInCtxs] at h
+  | cons c t ih =>
+    simp only [setInCtxs] at h
+    cases hc : c.lookup n with
+    | some w =>
+      simp only [hc, Option.some.injEq] at h
+      subst h
+      simp [lookupCtxs, lookup_setVar]
+    | none =>
+      simp only [hc, Option.map_eq_some_iff] at h
+      obtain ⟨t', ht', rfl⟩ := h
+      simp [lookupCtxs, hc, ih t' ht']
+
+theorem lookupCtxs_none_of_setInCtxs (cs : List (List (String × Var))) (n : String) (v : Var)
+    (h : setInCtxs cs n v = none) : lookupCtxs cs n = none := by
+  induction cs with
+  | nil => rfl
+  | cons c t ih =>
+    simp only [setInCtxs] at h
+    cases hcl : c.lookup n with
+    | some x => simp [hcl] at h
+    | none =>
+      simp only [hcl, Option.map_eq_none_iff] at h
+      simp [lookupCtxs, hcl, ih h]
+
+/-- a variable that no function context declares is looked up in the global context -/
+theorem getValue_global (env : Env) (n : String) (h : ∀ c ∈ env.ctxs, c.lookup n = none) :
+    env.getValue n = (env.vars.lookup n).bind (·.value) := by
+  simp [Env.getValue, Env.getVar, lookupCtxs_none env.ctxs n h]
+
+/-- after an assignment the value is what the variable expands to, where it was assigned … -/
+theorem assign_getValue (env env' : Env) (n : String) (v : List Char)
+    (h : env.assign n v = some env') : env'.getValue n = some (.scalar v) := by
+  unfold Env.assign at h
+  cases hg : env.getVar n with
+  | none =>
+    simp only [hg, Option.some.injEq] at h
+    subst h
+    have hl : lookupCtxs env.ctxs n = none := by
+      unfold Env.getVar at hg
+      cases hc : lookupCtxs env.ctxs n with
+      | none => rfl
+      | some w => simp [hc] at hg
+    simp [Env.getValue, Env.getVar, hl, lookup_setVar]
+  | some w =>
+    simp only [hg] at h
+    by_cases hro : w.readOnly = true
+    · simp [hro] at h
+    · simp only [hro, Bool.false_eq_true, if_false] at h
+      split at h
+      · rename_i cs hs
+        simp only [Option.some.injEq] at h
+        subst h
+        simp [Env.getValue, Env.getVar, lookupCtxs_setInCtxs _ _ _ _ hs]
+      · rename_i hs
+        simp only [Option.some.injEq] at h
+        subst h
+        have hl : lookupCtxs env.ctxs n = none := lookupCtxs_none_of_setInCtxs _ _ _ hs
+        simp [Env.getValue, Env.getVar, hl, lookup_setVar]
+
+/-- … and, when no function call in progress has a local of that name, the value goes to the
+    global context and the function contexts are untouched -/
+theorem assign_global (env env' : Env) (n : String) (v : List Char)
+    (h : env.assign n v = some env') (hnl : ∀ c ∈ env.ctxs, c.lookup n = none) :
+    env'.ctxs = env.ctxs ∧ (env'.vars.lookup n).bind (·.value) = some (.scalar v) := by
+  unfold Env.assign at h
+  have hs : ∀ w, setInCtxs env.ctxs n w = none := fun w => setInCtxs_none env.ctxs n w hnl
+  cases hg : env.getVar n with
+  | none =>
+    simp only [hg, Option.some.injEq] at h
+    subst h
+    simp [lookup_setVar]
+  | some w =>
+    simp only [hg] at h
+    by_cases hro : w.readOnly = true
+    · simp [hro] at h
+    · simp only [hro, Bool.false_eq_true, if_false, hs, Option.some.injEq] at h
+      subst h
+      simp [lookup_setVar]
+
 end YashModel.Expansion
